@@ -97,15 +97,64 @@ def gen_shadow_import(rng):
     return "import %s as %s" % (rng.choice(["os", "lib.mod"]), names[0])
 
 
-def gen_scope(rng, depth, ind, in_class, max_items, shadow_imports=0.0):
+# ---- multi-line text constants (text_blocks stratum): usage banners, templates, tables kept in triple-quoted literals
+TEXT_NAMES = ["BANNER", "USAGE", "TEMPLATE", "HELP_TEXT", "QUERY", "TABLE", "banner", "usage"]
+TEXT_LINES = ["Usage:", "  run --fast", "\tcolumn\tvalue", "SELECT *", "    FROM t", "end.", "* item", "trailing   ",
+              "a\tb", "      deep", " one", "x = 1", "def not_code():", "# not a comment", "{name}", "%s items"]
+TEXT_BLANKS = ["", "", "    ", "  ", " ", "\t", " \t", "\t\t ", "        "]
+
+
+def gen_text_literal(rng, ind=""):
+    """source of a triple-quoted string literal spanning 2..6 lines: text lines start in whatever column the text says
+    (odd indentation, tabs), some lines are empty, some consist of blanks / tabs only, some end in blanks; the closing
+    quotes follow the text, stand on a line of their own at column 0 or at the statement's indentation (the value then
+    ends in a blanks-only segment without newline)"""
+    q = rng.choice(['"""', '"""', "'''"])
+    n = rng.randint(1, 5)
+    body = []
+    for i in range(n):
+        body.append(rng.choice(TEXT_BLANKS) if rng.random() < 0.4 else rng.choice(TEXT_LINES))
+    if not any(ln.strip() for ln in body):
+        body[rng.randrange(len(body))] = rng.choice(TEXT_LINES)
+    first = rng.choice(["", "", rng.choice(TEXT_LINES), "   "])
+    close = rng.choice(["\n", "\n" + ind, "\n" + ind + "    ", ""])
+    if close == "" and not body[-1].strip():
+        close = "\n"
+    return q + first + "\n" + "\n".join(body) + close + q
+
+
+def gen_text_stmt(rng, ind, used):
+    """a statement (source lines) holding a multi-line text constant that is not a docstring: an assignment (plain or
+    annotated: an addressable member), a call with the text as argument, a constant in a larger expression"""
+    lit = gen_text_literal(rng, ind)
+    r = rng.random()
+    nm = _pick_unique(rng, TEXT_NAMES, used) if r < 0.75 else None
+    if nm is None:
+        form = rng.choice(["print(%s)", "register(%s, 1)", "_ = (%s).strip()", "assert %s"])
+        return (ind + form % lit).split("\n")
+    if r < 0.4:
+        return (ind + "%s = %s" % (nm, lit)).split("\n")
+    if r < 0.6:
+        return (ind + "%s: str = %s" % (nm, lit)).split("\n")
+    if r < 0.68:
+        return (ind + "%s = [%s, 'x']" % (nm, lit)).split("\n")
+    return (ind + "%s = %s %% 3" % (nm, lit)).split("\n")
+
+
+def gen_scope(rng, depth, ind, in_class, max_items, shadow_imports=0.0, text_blocks=0.0):
     """lines of a module or class body; names unique within this scope.
-    shadow_imports: probability, per item, of an import (in class bodies too) that mentions the generator's own names"""
+    shadow_imports: probability, per item, of an import (in class bodies too) that mentions the generator's own names
+    text_blocks: probability, per item, of a statement holding a multi-line text constant (gen_text_stmt), and of one more
+    such statement inside a function body"""
     used = set()
     lines = []
     n = rng.randint(1, max_items)
     for _ in range(n):
         if shadow_imports and rng.random() < shadow_imports:
             lines.append(ind + gen_shadow_import(rng))
+            continue
+        if text_blocks and rng.random() < text_blocks:
+            lines.extend(gen_text_stmt(rng, ind, used))
             continue
         r = rng.random()
         if r < 0.12 and not in_class:
@@ -129,7 +178,10 @@ def gen_scope(rng, depth, ind, in_class, max_items, shadow_imports=0.0):
                 lines.append(ind + "def %s(%s):" % (nm, gen_args(rng, kind)))
                 if depth > 0 and rng.random() < 0.25:
                     lines.extend(gen_scope_nested_in_func(rng, depth - 1, ind + "    "))
-                lines.extend(gen_body_simple(rng, ind + "    "))
+                body = gen_body_simple(rng, ind + "    ")
+                if text_blocks and rng.random() < text_blocks:
+                    body[-1:-1] = gen_text_stmt(rng, ind + "    ", set())      # before the final return / pass
+                lines.extend(body)
         elif r < 0.9 and depth > 0:
             nm = _pick_unique(rng, CLASS_NAMES, used)
             if nm:
@@ -137,7 +189,7 @@ def gen_scope(rng, depth, ind, in_class, max_items, shadow_imports=0.0):
                              else ind + "class %s:" % nm)
                 if rng.random() < 0.5:
                     lines.append(ind + '    """%s"""' % rng.choice(["Class doc.", "Config.\n" + ind + "    :cvar a: A"]))
-                lines.extend(gen_scope(rng, depth - 1, ind + "    ", True, 4, shadow_imports))
+                lines.extend(gen_scope(rng, depth - 1, ind + "    ", True, 4, shadow_imports, text_blocks))
         elif r < 0.95 and not in_class:
             lines.append(ind + "if __name__ == '__main__':")
             lines.append(ind + "    " + rng.choice(["print(1)", "main()", "x = 2"]))
@@ -156,13 +208,13 @@ def gen_scope_nested_in_func(rng, depth, ind):
     return lines
 
 
-def gen_module(rng, depth=2, max_items=6, trailing_newline=None, shadow_imports=0.0):
-    """shadow_imports (default 0: the stream of existing callers is unchanged): see gen_scope"""
+def gen_module(rng, depth=2, max_items=6, trailing_newline=None, shadow_imports=0.0, text_blocks=0.0):
+    """shadow_imports, text_blocks (default 0: the stream of existing callers is unchanged): see gen_scope"""
     while True:
         lines = []
         if rng.random() < 0.3:
             lines.append('"""Module doc."""')
-        lines.extend(gen_scope(rng, depth, "", False, max_items, shadow_imports))
+        lines.extend(gen_scope(rng, depth, "", False, max_items, shadow_imports, text_blocks))
         src = "\n".join(lines)
         src = src.replace("class C():", "class C:").replace("():", ":") if False else src
         src = src.replace("(): ", ": ")
